@@ -203,6 +203,15 @@ def streams(rng, tier):
         for n in (1, 2, 5):
             cs.append({"op": "na", "fn": "fillna", "a": [["N"]] * n, "v": v})
     out.append(("na", cs))
+    # the same cases on vectors that RECEIVED their None by assignment (built without None, then v[i] = None):
+    # isna / dropna / fillna / reductions / comparisons must not care how the None got there
+    assigned = []
+    for name, cases in out:
+        cand = [c for c in cases if "via" not in c and any(t[0] == "N" for t in (c.get("a") or []))
+                and any(t[0] != "N" for t in (c.get("a") or [])) and c.get("op") in ("red", "na", "cmp")]
+        for c in rng.sample(cand, min(len(cand), 400 if not thorough else 4000)):
+            assigned.append(dict(c, via="assign_none"))
+    out.append(("assigned-none", assigned))
     lived = []
     for name, cases in out:
         cand = [c for c in cases if len(c.get("a") or []) >= 2 and "via" not in c]
@@ -236,6 +245,23 @@ def _bools(r):
     return None
 
 
+def _mk(case, a):
+    """the case's left operand; via = "assign_none": built WITHOUT its None values (an object-dtype stand-in of the
+    same kind of data: another element of the vector), then the None are assigned in place"""
+    if case.get("via") == "assign_none":
+        stand = next(x for x in a if x is not None)
+        v = c05._mkvec_fresh([stand if x is None else x for x in a], None)
+        try:
+            for i, x in enumerate(a):
+                if x is None:
+                    v[i] = None
+            if [type(x) for x in v._underlying] == [type(x) for x in a]:
+                return v
+        except Exception:                                    # noqa: BLE001
+            pass
+    return c05._mkvec(a, case.get("adt"))
+
+
 def _obs_cmp(case):
     import datetime as dt
     import operator
@@ -244,7 +270,7 @@ def _obs_cmp(case):
     pyop = getattr(operator, fn)
     it = c05._Intern()
     a = [V.dec(t) for t in case["a"]]
-    v = c05._mkvec(a, case.get("adt"))
+    v = _mk(case, a)
     xs = [it.id(x) for x in a]
     scalar = form in ("scalar", "str", "dt", "date")
     o = {"xs": xs, "self_kind": V.schema_obs(v.schema())}
@@ -353,7 +379,7 @@ def _obs_red(case):
     fn = case["fn"]
     it = c05._Intern()
     a = [V.dec(t) for t in case["a"]]
-    v = c05._mkvec(a, case.get("adt"))
+    v = _mk(case, a)
     if case.get("via") == "to_object":
         v = v.to_object()
     elif case.get("via") == "declared" and v.schema() is not None:
@@ -431,7 +457,7 @@ def _obs_na(case):
     fn = case["fn"]
     it = c05._Intern()
     a = [V.dec(t) for t in case["a"]]
-    v = c05._mkvec(a, case.get("adt"))
+    v = _mk(case, a)
     xs = [it.id(x) for x in a]
     o = {"xs": xs, "dt": V.schema_obs(v.schema())}
     try:
